@@ -14,6 +14,9 @@ KEYS = ("op", "x", "rows", "left", "A")
 
 
 def run(ctx):
+    # the mask ALGORITHM of deletion_effect, statement by statement, equals the declarative edit (as-found keep rule = mutant)
+    ctx.model_check("DeletionMask", "DeletionMask_MC.cfg")
+    ctx.spec_mutant("DeletionMask", "DeletionMask_MC_asfound.cfg", violated="KeepsWhatTheDefinitionKeeps")
     cfg = "Variant_MC_quick.cfg" if ctx.quick else "Variant_MC_thorough.cfg"
     std.m1(ctx, "Variant", cfg, "c10", extra=dict(A=4), evkeys=KEYS)
 
